@@ -57,6 +57,16 @@ fn trip(s: &ast::Statement, what: &str, fails: &mut Vec<String>, differs: &mut b
             Err(())
         }
         TextTrip::Differs(text, sig, orig, back, s2) => {
+            if std::env::var("C02_TEXT_DEBUG").is_ok() {
+                eprintln!("differs {} [{}]\n  text {}\n  orig {}\n  back {}", unit, sig, text, orig, back);
+            }
+            // the rssl reader takes `a < b ? x : c > (d)` for the call `a<..>(d)` of a template; in Metal (C++) a variable name
+            // is never a template name, so the text is the comparison the tree says: the READER cannot read it, not judged
+            let targs = |t: &str| t.matches(") ((E ").count() + t.matches(") ((T ").count();
+            if targs(&back) > targs(&orig) {
+                hist.add(&format!("text:{}:unreadable:template-ambiguity", unit));
+                return Err(());
+            }
             hist.add(&format!("text:{}:DIFFERS", unit));
             *differs = true;
             let cut = |s: &str| s.chars().take(300).collect::<String>();
